@@ -137,6 +137,7 @@ def run_sem(pid, tier, seed, replay, gen_fn=None, extra_cov=None, t_start=None):
 MODEL_A_QUICK = {"C04", "C12"}                     # properties whose quick tier also runs MC_Evaluator
 MODEL_A_THOROUGH = {"C01", "C02", "C03", "C04", "C12", "C13", "C14"}
 STEP_TRACES = {"C04", "C12"}                       # properties whose checks also validate hook traces
+PRIMITIVES = {"C03"}                               # properties whose checks also replay the symbolic primitives (Trace_Rel)
 
 
 def run(pid, tier, seed, replay):
@@ -160,6 +161,19 @@ def run(pid, tier, seed, replay):
                                        "note": "step-level disagreement is model drift (reported as NOTE), never a violation by itself"}
                 extra.setdefault("mode_A_evaluator", {})
                 extra["_add_states"] = (st["distinct"], st["states"])
+            if pid in PRIMITIVES:
+                import relprops
+                pr = relprops.run_primitives(tier, seed, wd)
+                for d in pr["drift"][:10]:
+                    log("NOTE model-drift property=%s primitive contracts: case %s unit_ok=%s primitives=%s" % ((pid,) + tuple(d)))
+                extra["primitive_level"] = {"module": "spec/Trace_Rel.tla", "cases": pr["cases"], "primitive_calls": pr["ops"],
+                                            "accepted_cases": pr["accepted"], "networks": pr["networks"], "primitives": pr["primitives"],
+                                            "drift": [list(d) for d in pr["drift"][:10]],
+                                            "note": "every symbolic primitive called on arbitrary raw relations (also outside the unit set, also on "
+                                                    "units restricted over the variable copies) and compared with its contract in spec/Rel.tla; "
+                                                    "disagreement is model drift (NOTE), never a violation by itself"}
+                a0 = extra.get("_add_states", (0, 0))
+                extra["_add_states"] = (a0[0] + pr["distinct"], a0[1] + pr["states"])
         return run_sem(pid, tier, seed, replay, extra_cov=extra, t_start=t_start)
     raise ToolError("no check for %s" % pid)
 
